@@ -315,6 +315,10 @@ func runC05(c *Ctx, r *Run) {
 
 	// the nil-rejecting validators themselves (pkg/math/arith): every element is examined before acceptance
 	checkGuardInventory(c, r, "PANIC-2", "round_guards.json", func(n string) bool { return strings.HasPrefix(n, "pkg/math/arith.IsValid") })
+	// restoring stored key material / wire values: every recorded refusal of a decoder is still made on the same datum
+	// (a constructor fed an unvalidated part - NewSecretKeyFromPrimes(P, Q) with Q unchecked - panics on damaged bytes)
+	r.Rule("PANIC-7", "decoders (UnmarshalBinary of key material and wire values) keep every recorded refusal, on the same data")
+	checkGuardInventory(c, r, "PANIC-7", "round_guards.json", func(n string) bool { return strings.HasSuffix(n, ".UnmarshalBinary") })
 	// ---- PANIC-4
 	checkUnmarshalers(c, r)
 
